@@ -30,8 +30,15 @@
                         `sid*count,sid*count,…`  (`-` if nothing)
               results = `1`/`0` per send id (Send returned nil / an error), `-` if still unknown
             reject <event index> <event text>
+
+  A second kind of line asks what `Connect()` does with a server list (Golib.Tcp.Dial.connectList):
+
+      L <Timeout> <srv>,<srv>,…        srv = u<d> (accepts after d time units) | r (refuses) | g (never answers)
+
+  answer:   ok <index of the server connected | -> <failed dials before it> <time units the call takes>
 -/
 import Golib.Tcp.Exec
+import Golib.Tcp.Dial
 import Driver.Common
 
 open Tcp Drv
@@ -97,8 +104,24 @@ def replay (cfg : Cfg) (cap : Nat) (evs : Array (Ev × Option Nat)) (texts : Arr
   let conns := (List.range s.next).map (showConn s)
   return s!"ok {if conns.isEmpty then "-" else "|".intercalate conns} r={showResults s lens.size}"
 
+def parseSrv (s : String) : Option Srv :=
+  if s == "r" then some .refused
+  else if s == "g" then some .gone
+  else if s.startsWith "u" then (parseNat (String.ofList (s.toList.drop 1))).map Srv.up
+  else none
+
+def answerList (T : Nat) (l : List Srv) : String :=
+  let r := connectList T l 0 0
+  match r.1 with
+  | some i => s!"ok {i} {i} {r.2}"
+  | none => s!"ok - {l.length} {r.2}"
+
 def answer (line : String) : String :=
   match line.splitOn " " with
+  | ["L", t, srvs] =>
+    match parseNat t, (srvs.splitOn ",").mapM parseSrv with
+    | some t, some l => answerList t l
+    | _, _ => "bad-line"
   | ["S", q, cap, bgl, evs] =>
     match parseNat cap with
     | some cap =>
